@@ -726,7 +726,7 @@ fn main() {
     let thorough = rep.cfg.thorough();
     let mut cases: Vec<CaseN> = Vec::new();
     let st = [1isize, 2, -1, -2];
-    for shape in [vec![3usize], vec![2, 2], vec![2, 3], vec![2, 1, 2], vec![2, 2, 1, 2]] {
+    for shape in [vec![3usize], vec![1, 1], vec![1, 3], vec![3, 1], vec![2, 2], vec![2, 3], vec![2, 1, 2], vec![2, 2, 1, 2]] {
         let d = shape.len();
         let la_all = if d <= 2 || thorough { all_layouts(d, &st) } else { covering_layouts(d, &st) };
         let lb_all = if d <= 2 { all_layouts(d, &st) } else if thorough && d == 3 { all_layouts(d, &st) } else { covering_layouts(d, &st) };
